@@ -28,6 +28,14 @@ Theorem C13_json_samples_fit : forall cv name (S : list json),
 Proof. exact json_samples_fit. Qed.
 Print Assumptions C13_json_samples_fit.
 
+(* 1c. a JSON string stays a string: DictMapper types every non-empty string leaf whose converter tests are
+       known as xs:string or as a datatype that JSON can only carry as a string (date, time, dateTime, duration,
+       g* period, QName).  No side condition since /repo fix 9a0cfef (before, {"s": "123"} was typed xs:int and
+       written back as the number 123; the check still replays that witness). *)
+Theorem C13_json_strings_kept : forall cv v, json_rows_known cv v = true -> g_json_strings cv v = true.
+Proof. exact json_strings_kept. Qed.
+Print Assumptions C13_json_strings_kept.
+
 (* 2. the type inferred for every attribute value, leaf text, text content and complex child of every sample
       node is among the types of the merged attr — unless it is xs:anySimpleType (empty value) / xs:anyType /
       xs:error, which ClassUtils.filter_types may drop.  No side condition. *)
@@ -51,15 +59,10 @@ Theorem C13_inferred_type_accepts :
 Proof. exact inferred_type_accepts. Qed.
 Print Assumptions C13_inferred_type_accepts.
 
-(* 4. nillable: "the class of a node that says xsi:nil=true is nillable" is FALSE of the faithful model
-      (reduce_classes copies nillable from group[0]; ClassUtils.flatten lists inner classes last to first) ... *)
-Theorem C13_nil_fit_refuted : exists cv S, forallb (tree_nil_ok (classes_of_xml cv S)) S = false.
-Proof. exact nil_fit_refuted. Qed.
-Print Assumptions C13_nil_fit_refuted.
-
-(*    ... and true when all occurrences of an element name agree on xsi:nil (clause g_nil) *)
-Theorem C13_nil_fit : forall cv (S : list tree),
-  g_nil_uniform cv S = true -> forallb (tree_nil_ok (classes_of_xml cv S)) S = true.
+(* 4. nillable: the class of every node that says xsi:nil="true" is nillable.  No side condition since /repo
+      fix 359d494 (reduce_classes merges nillable over the group; before, it copied group[0]'s and the statement
+      was refuted by <r><n a="1" xsi:nil="true"/><n a="2">5</n></r>, which the check still replays). *)
+Theorem C13_nil_fit : forall cv (S : list tree), forallb (tree_nil_ok (classes_of_xml cv S)) S = true.
 Proof. exact nil_fit. Qed.
 Print Assumptions C13_nil_fit.
 
@@ -76,7 +79,7 @@ Proof. exact ns_fit. Qed.
 Print Assumptions C13_ns_fit.
 
 Example C13_guards_nonvacuous :
-  g_nil_uniform no_tests w_guard_ok = true /\ g_ns_uniform no_tests w_guard_ok = true
+  g_ns_uniform no_tests w_guard_ok = true
   /\ existsb (fun t => existsb (fun k => match xsi_nil_of k with Some true => true | _ => false end) (t_kids t)) w_guard_ok = true.
 Proof. exact guards_nonvacuous. Qed.
 Print Assumptions C13_guards_nonvacuous.
@@ -104,10 +107,6 @@ Theorem C13_values_exact_refuted :
   exists tbl vt S, forallb (g_values_exact vt (classes_of_xml (sconv_of_table tbl) S)) S = false.
 Proof. exact values_exact_refuted. Qed.
 Print Assumptions C13_values_exact_refuted.
-
-Theorem C13_json_strings_refuted : exists tbl S, forallb (g_json_strings (sconv_of_table tbl)) S = false.
-Proof. exact json_strings_refuted. Qed.
-Print Assumptions C13_json_strings_refuted.
 
 Example C13_regular_nonvacuous :
   let cs := classes_of_xml no_tests w_regular in
